@@ -142,31 +142,44 @@ Fixpoint rseq (apply : rop -> list (N * N) -> rres * list (N * N)) (ops : list r
    3. per-mapping concurrent-connection limit on the listening client: BaseMappingHandler.handleConnection
       shared: activeConnCount (atomic.Int32) and the number of live tunnels of this mapping *)
 Inductive mpc :=
-| MStart                (* next: activeConnCount.Load() and compare *)
-| MLoaded (cur : Z)     (* Pinned: passed the check, next Add(1).  Current: next CompareAndSwap(cur, cur+1) *)
-| MActive               (* holds a slot; setting the tunnel up (PrepareConnection, DialTunnel, ...) *)
-| MLive                 (* tunnel started, handleConnection has returned *)
-| MDone                 (* tunnel closed *)
+| MStart (early : bool)            (* next: activeConnCount.Load() and compare.  early: the tunnel of this connection will be
+                                      closed by its peer between tunnelManager.RegisterTunnel and tun.Start() *)
+| MLoaded (early : bool) (cur : Z) (* Pinned: passed the check, next Add(1).  Current: next CompareAndSwap(cur, cur+1) *)
+| MActive (early : bool)           (* holds a slot; setting the tunnel up (PrepareConnection, DialTunnel, RegisterTunnel) *)
+| MLive                            (* tunnel started, handleConnection has returned *)
+| MEarlyClosed                     (* Tunnel.Close ran OnClosed before Start; next: Start fails, deferred cleanup runs *)
+| MDone                            (* tunnel closed / connection given up *)
 | MRefused.
 Record msh := { counter : Z; live : Z }.
 
-Definition mstep (v : variant) (max : nat) (pc : mpc) (sh : msh) : mpc * msh :=
+(* once = the slot release is wrapped in a sync.Once (the code); once = false is the non-idempotent variant (refuted) *)
+Definition mstep_gen (once : bool) (v : variant) (max : nat) (pc : mpc) (sh : msh) : mpc * msh :=
   let bump d l := {| counter := counter sh + d; live := live sh + l |}%Z in
   match pc with
-  | MStart =>
+  | MStart e =>
       match v, max with
-      | Current, 0 => (MActive, bump 1 0)%Z                                 (* unlimited: Add(1) only *)
-      | _, _ => if (0 <? max) && (Z.of_nat max <=? counter sh)%Z then (MRefused, sh) else (MLoaded (counter sh), sh)
+      | Current, 0 => (MActive e, bump 1 0)%Z                               (* unlimited: Add(1) only *)
+      | _, _ => if (0 <? max) && (Z.of_nat max <=? counter sh)%Z then (MRefused, sh) else (MLoaded e (counter sh), sh)
       end
-  | MLoaded cur =>
+  | MLoaded e cur =>
       match v with
-      | Pinned => (MActive, bump 1 0)%Z                                     (* activeConnCount.Add(1) *)
-      | Current => if (counter sh =? cur)%Z then (MActive, bump 1 0)%Z else (MStart, sh)   (* CAS, retry on failure *)
+      | Pinned => (MActive e, bump 1 0)%Z                                   (* activeConnCount.Add(1) *)
+      | Current => if (counter sh =? cur)%Z then (MActive e, bump 1 0)%Z else (MStart e, sh)   (* CAS, retry on failure *)
       end
-  | MActive =>
+  | MActive false =>
       match v with
       | Pinned => (MLive, bump (-1) 1)%Z        (* tun.Start(); return => deferred Add(-1) runs while the tunnel lives *)
       | Current => (MLive, bump 0 1)%Z          (* slot handed over to the tunnel *)
+      end
+  | MActive true =>                             (* registered, then closed by the peer: Tunnel.Close -> OnClosed *)
+      match v with
+      | Pinned => (MEarlyClosed, sh)            (* OnClosed does not touch the counter *)
+      | Current => (MEarlyClosed, bump (-1) 0)%Z   (* OnClosed -> releaseSlot() *)
+      end
+  | MEarlyClosed =>                             (* tun.Start() fails; failure path; deferred releaseSlot() *)
+      match v with
+      | Pinned => (MDone, bump (-1) 0)%Z
+      | Current => if once then (MDone, sh) else (MDone, bump (-1) 0)%Z
       end
   | MLive =>
       match v with
@@ -175,9 +188,47 @@ Definition mstep (v : variant) (max : nat) (pc : mpc) (sh : msh) : mpc * msh :=
       end
   | MDone | MRefused => (pc, sh)
   end.
-Definition m_holds (pc : mpc) : bool := match pc with MActive | MLive => true | _ => false end.
+Definition mstep := mstep_gen true.
+Definition m_holds (pc : mpc) : bool := match pc with MActive _ | MLive => true | _ => false end.
 Definition m_live (pc : mpc) : bool := match pc with MLive => true | _ => false end.
 Definition mrun v max (sh : msh) (ts : list mpc) (sched : list nat) := run _ _ (mstep v max) (sh, ts) sched.
+
+(* 3b. the slot release seen as events: one holder = one handleConnection call; its script is ANY sequence of acquire /
+   release events (release = OnClosed's or the deferred releaseSlot(), in any number and order) *)
+Inductive hev := HAcq | HRel.
+Record hloc := { h_todo : list hev; h_acquired : bool; h_holding : bool }.
+Definition hstep (once : bool) (max : nat) (lo : hloc) (c : Z) : hloc * Z :=
+  match h_todo lo with
+  | [] => (lo, c)
+  | HAcq :: r =>
+      if h_acquired lo then ({| h_todo := r; h_acquired := true; h_holding := h_holding lo |}, c)
+      else if (0 <? max) && (Z.of_nat max <=? c)%Z
+           then ({| h_todo := []; h_acquired := false; h_holding := false |}, c)     (* refused: returns at once *)
+           else ({| h_todo := r; h_acquired := true; h_holding := true |}, c + 1)%Z
+  | HRel :: r =>
+      if h_holding lo then ({| h_todo := r; h_acquired := h_acquired lo; h_holding := false |}, c - 1)%Z
+      else if once || negb (h_acquired lo) then ({| h_todo := r; h_acquired := h_acquired lo; h_holding := false |}, c)
+      else ({| h_todo := r; h_acquired := h_acquired lo; h_holding := false |}, c - 1)%Z      (* released AGAIN *)
+  end.
+Definition h_new (script : list hev) : hloc := {| h_todo := script; h_acquired := false; h_holding := false |}.
+Definition hrun once max (c : Z) (ts : list hloc) (sched : list nat) := run _ _ (hstep once max) (c, ts) sched.
+
+(* 2b. ClientRegistry.Register with the lock RELEASED between the eviction and the insert (NOT the code; the variant the
+   harness's gated stream Close() distinguishes; refuted) *)
+Inductive ppc := PStart (id t : N) | PInsert (id t : N) | PDone.
+Definition creg_split_step (max : nat) (pc : ppc) (m : list (N * N)) : ppc * list (N * N) :=
+  match pc with
+  | PStart id t =>
+      if has m id then (PDone, (id, t) :: del m id)
+      else if at_cap max (length m) then
+        match oldest m with
+        | Some old => (PInsert id t, del m (fst old))      (* evicted; Unlock; oldest.Stream.Close(); Lock *)
+        | None => (PDone, m)
+        end
+      else (PDone, (id, t) :: m)
+  | PInsert id t => (PDone, (id, t) :: del m id)           (* connMap[id] = conn, unconditionally *)
+  | PDone => (PDone, m)
+  end.
 
 (* ------------------------------------------------------------------------------------------------
    4. per-client quotas kept in storage: count the active entries (list reads), then create (writes).
